@@ -242,8 +242,8 @@ def _records_table(R, table, flavour, tier, only, tindex=0):
                         if gotM != wantM:
                             bad = sorted(set(gotM.items()) ^ set(wantM.items()))[:6]
                             R.mismatch("record-with-missing-chromosome-name-counted-or-valid-record-misplaced", innerM, f"differences (row, pixel)={bad}")
-                    except Exception as ex:
-                        R.mismatch("valid-chunk-raises:" + type(ex).__name__, innerM, f"{ex!s:.300}")
+                    except Exception:
+                        R.classes["chunk:missing-chromosome-name:refused"] += 1     # refusing a chunk that holds a missing name is not judged
                 # -- the same chunk against the SAME bin table handed over in another form (row labels that are not 0..n-1, int32
                 #    coordinates, chromosome column as plain strings / unordered categorical): the table's content decides, not its form
                 for bform in (("offset-labels", "reversed-labels", "string-labels", "repeated-labels", "int32-coordinates", "object-chrom", "unordered-categorical")
